@@ -43,6 +43,7 @@ def candidates():
         skip_next = False
         in_tests = False
         in_block = False
+        hook_depth = 0
         for n, line in enumerate(lines):
             # block comments: blank them out (the few there are start and end on their own lines or
             # sit inside one line)
@@ -72,6 +73,11 @@ def candidates():
                 continue
             if skip_next:
                 skip_next = False
+                if s == "{":
+                    hook_depth = 1  # a whole block of hook code
+                continue
+            if hook_depth > 0:
+                hook_depth += s.count("{") - s.count("}")
                 continue
             if not s or s.startswith("#") or s.startswith("use ") or s.startswith("pub use") or "verif::" in s or "verif_" in s:
                 continue
@@ -217,6 +223,35 @@ def run(ms, out_path, slots, frac, props):
     print("SUMMARY", json.dumps(counts))
 
 
+def report(path, triage_path):
+    """markdown summary of a results file; --triage FILE: JSON {"file:line:after": "category: note"}"""
+    import collections
+    rs = [json.loads(l) for l in open(path)]
+    triage = json.load(open(triage_path)) if triage_path and os.path.exists(triage_path) else {}
+    st = collections.Counter(r["status"] for r in rs)
+    print("| outcome | mutants |\n|---|---|")
+    for k, v in sorted(st.items(), key=lambda kv: -kv[1]):
+        print("| %s | %d |" % (k, v))
+    alive = [r for r in rs if r["status"] in ("caught", "survived")]
+    print("\nmutants that compile and pass the 44 unit tests: %d; caught by a check: %d (%.0f %%)\n" % (len(alive), st["caught"], 100.0 * st["caught"] / max(1, len(alive))))
+    print("| file | pass unit tests | caught | survived |\n|---|---|---|---|")
+    for f in FILES:
+        a = [r for r in alive if r["file"] == f]
+        if a:
+            print("| %s | %d | %d | %d |" % (f, len(a), sum(r["status"] == "caught" for r in a), sum(r["status"] == "survived" for r in a)))
+    by = collections.Counter(r.get("caught_by") for r in rs if r["status"] == "caught")
+    print("\ncaught first by (checks run in the order %s): %s\n" % (" ".join(ORDER), ", ".join("%s %d" % kv for kv in by.most_common())))
+    cats = collections.Counter()
+    rows = []
+    for r in sorted((r for r in rs if r["status"] == "survived"), key=lambda r: (r["file"], r["line"])):
+        t = triage.get("%s:%d:%s" % (r["file"], r["line"], r["after"]), "untriaged")
+        cats[t.split(":")[0]] += 1
+        rows.append("| %s:%d | `%s` | `%s` | %s |" % (r["file"], r["line"], r["before"][:60].replace("|", "\\|"), r["after"][:60].replace("|", "\\|"), t))
+    print("survivors by category: " + ", ".join("%s %d" % kv for kv in cats.most_common()) + "\n")
+    print("| where | before | after | triage |\n|---|---|---|---|")
+    print("\n".join(rows))
+
+
 def arg(name, default=None):
     return sys.argv[sys.argv.index(name) + 1] if name in sys.argv else default
 
@@ -249,6 +284,9 @@ def main():
         sv = [json.loads(l) for l in open(arg("--in"))]
         ms = [allm[r["id"]] for r in sv if r["status"] == "survived" and r["id"] in allm and allm[r["id"]]["after"] == r["after"]]
         run(ms, arg("--out"), int(arg("--slots", "2")), 1.0, ORDER)
+        return
+    if cmd == "report":
+        report(arg("--in"), arg("--triage"))
         return
     print(__doc__)
     sys.exit(2)
